@@ -253,6 +253,82 @@ def run_l0(rep, tier=None, seed=None, tag=None):
     absorb_l0(rep, res, 'l0')
 
 
+# ----------------------------------------------------------------------------- live traces
+
+LIVE_RE = re.compile(r'^S (\S+) (ok|FAIL) ?(.*)$')
+
+
+def live_pipeline(args, tag):
+    """run build/live with args, pipe the traces through the driver; returns (results, traces, err)"""
+    import subprocess
+    tr = os.path.join(WORK, f'traces_{tag}.txt')
+    vd = os.path.join(WORK, f'liveverdicts_{tag}.txt')
+    with open(tr, 'w') as f:
+        rc = subprocess_run_to(f, [os.path.join(BUILD, 'live')] + args)
+    if rc:
+        return None, None, f'live harness exited with {rc}'
+    with open(tr) as fi, open(vd, 'w') as fo:
+        rc = subprocess_run_to(fo, [DRIVER, 'live'], stdin=fi)
+    if rc:
+        return None, None, f'driver exited with {rc}'
+    traces, cur, name = {}, [], None
+    for l in open(tr):
+        if l.startswith('# scenario '):
+            name, cur = l[11:].strip(), []
+        elif l.startswith('# end'):
+            traces[name] = cur
+        else:
+            cur.append(l.rstrip('\n'))
+    res = []
+    for l in open(vd):
+        m = LIVE_RE.match(l.rstrip('\n'))
+        if m:
+            res.append(m.groups())
+    return res, traces, None
+
+
+def absorb_live(rep, res, traces, engine='live'):
+    seen_ok = set()
+    for spec, status, rest in res:
+        fam = spec.split(':')[0]
+        if status == 'ok':
+            rep.evaluations += 1
+            rep.traces += 1
+            seen_ok.add(spec)
+            rep.distinct.add(hashlib.blake2b(('live ' + spec).encode(), digest_size=8).digest())
+            rep.branches['live/' + fam] = rep.branches.get('live/' + fam, 0) + 1
+            if len([x for x in rep.samples if x.startswith('live ')]) < 4:
+                rep.samples.append(f'live {spec}: {rest}; first events: ' + ' | '.join(traces.get(spec, [])[:6]))
+        else:
+            rep.failures.append(dict(case=spec, impl='(trace)', model=None, clause=rest, engine=engine,
+                                     trace=traces.get(spec, [])))
+    failed = {f['case'] for f in rep.failures if f.get('engine') == engine}
+    rep.evaluations += len(failed)
+
+
+def run_live(rep, tier=None, seed=None):
+    tier = tier or rep.tier
+    seed = rep.seed if seed is None else seed
+    par = str(os.cpu_count() or 8)
+    res, traces, err = live_pipeline(['-prop', rep.pid, '-tier', tier, '-seed', str(seed), '-par', par], f'{rep.pid}_{tier}_{seed}')
+    if res is None:
+        rep.broken.append(('tie2', 'live engine failed', err))
+        return
+    # liveness expectations are retried once, alone
+    flaky = sorted({spec for spec, st, rest in res if st == 'FAIL' and rest.startswith('LIVENESS')})
+    if flaky:
+        only_live = {spec for spec in flaky if all(r.startswith('LIVENESS') for s2, st, r in res if s2 == spec and st == 'FAIL')}
+        if only_live:
+            f = os.path.join(WORK, f'retry_{rep.pid}.txt')
+            open(f, 'w').write('\n'.join(sorted(only_live)) + '\n')
+            res2, traces2, err2 = live_pipeline(['-specs', f, '-seed', str(seed), '-par', '2'], f'{rep.pid}_retry')
+            if res2 is not None:
+                res = [r for r in res if r[0] not in only_live] + res2
+                traces.update(traces2)
+                rep.notes.append(f'retried {len(only_live)} scenarios whose only failure was a liveness timeout')
+    absorb_live(rep, res, traces)
+
+
 # ----------------------------------------------------------------------------- shrinking
 
 def split_top(s):
@@ -408,7 +484,8 @@ def verdict(rep):
                 small = shrink(f['case'], lambda r: r[2][2] == 'FAIL:' + clause, f'{rep.pid}_{n}')
             if small is not None and small[2][2] == 'FAIL:' + clause:
                 f = dict(case=small[0], impl=small[1], model=small[2][1], clause=clause, engine=f['engine'])
-            path = write_replay(rep, n, dict(kind='oracle', engine=f.get('engine'), case=f['case'], implementation=f['impl'],
+            extra = dict(trace=f['trace'], rerun_cmd=f"build/live -one '{f['case']}' | lean/.lake/build/bin/driver live") if f.get('trace') else {}
+            path = write_replay(rep, n, dict(extra, kind='oracle', engine=f.get('engine'), case=f['case'], implementation=f['impl'],
                                              model=f.get('model'), spec_clause_failed=clause, cases_in_group=len(fs),
                                              broken=[list(b[:2]) for b in rep.broken]))
             lines.append(f'VIOLATION property={rep.pid} replay={path}')
@@ -460,6 +537,8 @@ def run_check(pid, tier, seed):
     if tools_ok and driver_ok:
         if cfg.get('l0'):
             run_l0(rep)
+        if cfg.get('live'):
+            run_live(rep)
         for eng in cfg.get('engines', []):
             eng(rep)
     lines, nviol = verdict(rep)
@@ -490,6 +569,27 @@ def replay(path):
             if oracle.startswith('FAIL') or agree != 'agree':
                 print(f'VIOLATION property={pid} replay={path}')
                 return 1
+        return 0
+    if body.get('engine') == 'live' and body.get('case'):
+        bad = 0
+        if body.get('trace'):
+            tf = os.path.join(WORK, 'replay_trace.txt')
+            open(tf, 'w').write(f"# scenario {body['case']}\n" + '\n'.join(body['trace']) + '\n# end\n')
+            rc, out = sh(f'{DRIVER} live < {tf}')
+            print('recorded trace re-checked by the current driver:')
+            print(out.strip())
+            bad += out.count(' FAIL ')
+        f = os.path.join(WORK, 'replay_spec.txt')
+        open(f, 'w').write((body['case'] + '\n') * 5)
+        res, traces, err = live_pipeline(['-specs', f, '-par', '1'], 'replay')
+        n = len([1 for r in (res or []) if r[1] == 'FAIL'])
+        print(f'scenario {body["case"]} re-run 5 times on the current tree: {n} failing verdict lines')
+        for r in (res or []):
+            if r[1] == 'FAIL':
+                print('  ', r[2][:300])
+        if n or bad:
+            print(f'VIOLATION property={pid} replay={path}')
+            return 1
         return 0
     print(json.dumps(body, indent=1))
     return 0
